@@ -62,6 +62,30 @@ def _is_hashable(x: Any) -> bool:
 		return False
 
 
+_MASK64 = 0xFFFFFFFFFFFFFFFF
+_FP_TAG_VECTOR = 0x5645435F5441475F
+_FP_TAG_SET = 0x5345545F5441475F
+_FP_TAG_LIST = 0x4C4953545F544147
+_FP_TAG_TUPLE = 0x5455504C455F5447
+
+
+def _mix64(z: int) -> int:
+	"""
+	Scatter a raw hash before it is folded into a fingerprint (splitmix64 finaliser).
+
+	Every step is a bijection of the 64-bit integers, so values that Python's hash()
+	tells apart stay apart; but neighbouring hashes (small ints hash to themselves)
+	no longer differ by small amounts that a polynomial fold could cancel.
+	"""
+	z &= _MASK64
+	z ^= z >> 30
+	z = (z * 0xBF58476D1CE4E5B9) & _MASK64
+	z ^= z >> 27
+	z = (z * 0x94D049BB133111EB) & _MASK64
+	z ^= z >> 31
+	return z
+
+
 def _safe_sortable_list(xs: Iterable[Any]) -> List[Any]:
 	"""
 	Deterministic representation for sets in fingerprinting.
@@ -222,27 +246,30 @@ class Vector():
 			return 0x9E3779B97F4A7C15
 		
 		if hasattr(x, "fingerprint") and callable(getattr(x, "fingerprint")):
-			return int(x.fingerprint())
+			# a column of a table (or a nested vector): scattered, so that the fold over the
+			# columns is not the same polynomial as the fold inside each column
+			return _mix64(int(x.fingerprint()) ^ _FP_TAG_VECTOR)
 
 		if isinstance(x, float):
 			if math.isnan(x):
 				return 0xDEADBEEFCAFEBABE
-			return hash(x)
+			return _mix64(hash(x))
 
 		if isinstance(x, set):
 			rep = _safe_sortable_list(list(x))
-			return Vector._hash_element(tuple(rep))
+			return _mix64(Vector._hash_element(tuple(rep)) ^ _FP_TAG_SET)
 
 		if isinstance(x, (list, tuple)):
-			h = 0
+			# seeded with the container's type and length: (5,), [5] and 5 are different values
+			h = _mix64(len(x) ^ (_FP_TAG_LIST if isinstance(x, list) else _FP_TAG_TUPLE)) % P
 			for elem in x:
 				h = (h * B + Vector._hash_element(elem)) % P
-			return h
+			return _mix64(h)
 
 		if _is_hashable(x):
-			return hash(x)
+			return _mix64(hash(x))
 
-		return hash(repr(x))
+		return _mix64(hash(repr(x)))
 
 	def _ensure_fp_powers(self) -> None:
 		n = len(self._underlying)
